@@ -15,7 +15,7 @@ RULE = ("random shots (all tables, look +-45 deg, cant, twist right/left/none, d
         "altitude stations and vacuum, winds) fired plain / with extra data / with a time step / into a limit (RangeError "
         "rows); every row created is checked by the contract; a case = (shot, request); non-trivial when the look angle "
         "is non-zero or the twist is non-zero with dimensions present")
-MUST_OBSERVE = ["rows_behind_the_muzzle", "requests_with_step_beyond_range", "contract_evaluations", "rows_contract_checked", "rows_api_checked", "rows_x0", "rows_event",
+MUST_OBSERVE = ["sight_lines_a_hair_off_level", "rows_behind_the_muzzle", "requests_with_step_beyond_range", "contract_evaluations", "rows_contract_checked", "rows_api_checked", "rows_x0", "rows_event",
                 "rows_terminal_rangeerror", "shots_twist_right", "shots_twist_left", "shots_twist_none",
                 "shots_no_dimensions", "shots_inclined", "spin_drift_rows_nonzero", "twin_runs", "mach_local_checks", "shots_powder_sensitivity_on"]
 ASSUMPTIONS = ["energy accepted between w v^2/450400 (documented constant) and the exact w v^2/(2*7000*32.17405)",
@@ -132,6 +132,8 @@ def miller_sg(spec, mv_fps, atmo):
 def check_case(ctx, case):
     monitors.reset_all()
     spec = case["shot"]
+    if spec.get("_tiny_look"):
+        ctx.count("sight_lines_a_hair_off_level")
     shot = build.shot(spec)
     calc = build.calculator(case.get("config"))
     req = case["request"]
@@ -257,6 +259,10 @@ def gen_case(rng):
         s["powder"] = {"temp_c": round(rng.uniform(-10, 30), 1), "modifier": round(rng.uniform(-0.04, 0.04), 4), "use": rng.random() < 0.8}
         if s["atmo"]["kind"] == "station" and rng.random() < 0.5:
             s["atmo"]["powder_t_c"] = round(rng.uniform(-30, 45), 1)
+    if rng.random() < 0.1:
+        # a sight line a hair off level: a tenth of a minute of angle, a few hundredths of a mil - an angle like any other
+        s["look_deg"] = rng.choice([-1, 1]) * rng.choice([0.1 / 60, 0.002, 0.04 * 360 / 6400, 5.7e-5, 1e-4])
+        s["_tiny_look"] = True
     kind = rng.choice(["plain", "extra", "extra", "time", "limit"])
     req = {"range_ft": rng.choice([300.0, 900.0, 1500.0, 3000.0]), "step_ft": rng.choice([30.0, 75.0, 100.0, 300.0]),
            "extra": kind in ("extra", "limit"), "time_step": rng.choice([0.01, 0.05]) if kind == "time" else 0.0}
